@@ -18,6 +18,7 @@ func checkC12(c *Ctx) {
 	r.Rule("R12.3", "only admitted calls terminate: the terminating function is reached only through the admission gate (shared with R01.1)")
 	r.Rule("R12.4", "nobody else terminates: os.Exit, log.Fatal*, runtime.Goexit are called nowhere else in the package, and no explicit panic on the print tree is selected by a severity (shared allow-table of R02.5)")
 	r.Rule("R12.6", "no bypass: from every native entry point (every exported function or method of the package that reaches the record printer, except the raw record entry points of the log/slog and std-log bridges) every static route to the printer passes the function that holds the termination step")
+	r.Rule("R12.7", "the testing-mode atom of R12.1 is what the property means by it: the package variable inTesting is initialised by is.InTesting() itself and never reassigned")
 	r.Rule("R12.5", "no foreign level becomes terminating: in every function mapping a log/slog level to a Level, Panic/Fatal are returned only under equality with the explicit LevelPanic/LevelFatal constants, and the lookup table has no terminating value")
 	r.Assume("inTesting (is.InTesting()) identifies a go test binary; the flags word is read at the time of the call")
 	for _, tags := range c.Configs([]string{""}, []string{"", "verbose", "hint", "verbose,hint"}) {
@@ -35,6 +36,7 @@ func checkC12(c *Ctx) {
 		wrapperForwarding(c, p, "R12.2")
 		c12Mapping(c, p, m)
 		noTerminationBypass(c, p, m)
+		testingPredicate(c, p)
 	}
 	c.Floor["R12.1"] = 16
 	c.Floor["R12.5"] = 3
